@@ -112,10 +112,10 @@ Lemma privkey_proto_roundtrip_l : forall kt d, kt < 2 ^ 32 -> nlen d < 2 ^ 64 ->
   parse_privkey (marshal_privkey kt d) = Some (kt, d).
 Proof. exact pubkey_proto_roundtrip_l. Qed.
 
-Lemma ed25519_priv_parts_raw : forall seed pub, length seed = 32%nat -> length pub = 32%nat ->
-  ed25519_priv_parts (ed25519_priv_raw seed pub) = Some (seed, pub).
+Lemma ed25519_priv_parts_unchecked_raw : forall seed pub, length seed = 32%nat -> length pub = 32%nat ->
+  ed25519_priv_parts_unchecked (ed25519_priv_raw seed pub) = Some (seed, pub).
 Proof.
-  intros seed pub Hs Hp. unfold ed25519_priv_parts, ed25519_priv_raw, nlen.
+  intros seed pub Hs Hp. unfold ed25519_priv_parts_unchecked, ed25519_priv_raw, nlen.
   rewrite app_length, Hs, Hp. cbn [Nat.add N.of_nat N.eqb Pos.of_succ_nat Pos.succ Pos.eqb].
   change (N.of_nat 64 =? 64) with true. cbv iota.
   rewrite <- Hs at 1. rewrite firstn_app, Nat.sub_diag, firstn_all, firstn_O, app_nil_r.
@@ -128,12 +128,10 @@ Lemma ed25519_priv_raw_injective : forall s p s' p',
   ed25519_priv_raw s p = ed25519_priv_raw s' p' -> s = s' /\ p = p'.
 Proof.
   intros s p s' p' H1 H2 H3 H4 H.
-  pose proof (ed25519_priv_parts_raw s p H1 H2) as R. rewrite H in R.
-  rewrite ed25519_priv_parts_raw in R by assumption. inversion R. split; reflexivity.
+  pose proof (ed25519_priv_parts_unchecked_raw s p H1 H2) as R. rewrite H in R.
+  rewrite ed25519_priv_parts_unchecked_raw in R by assumption. inversion R. split; reflexivity.
 Qed.
 
-(* Equals on Ed25519 private keys is equality of (secret, public): a key reported equal
-   has the same encoding *)
 Lemma ed25519_priv_equal_iff : forall a b, ed25519_priv_equal a b = true <-> a = b.
 Proof.
   intros [s p] [s' p']. unfold ed25519_priv_equal. cbn [fst snd].
@@ -142,28 +140,43 @@ Proof.
   - intros H. inversion H. split; reflexivity.
 Qed.
 
-Lemma ed25519_equal_same_encoding : forall a b, ed25519_priv_equal a b = true ->
-  ed25519_priv_raw (fst a) (snd a) = ed25519_priv_raw (fst b) (snd b).
-Proof. intros a b H. apply ed25519_priv_equal_iff in H. subst b. reflexivity. Qed.
-
-(* FINDING.  Full statement: every accepted Ed25519 private key is consistent, i.e. its
-   public half is the public key [derive seed] of its seed (derive = the curve's scalar
-   multiplication, external).  It is FALSE of the faithful model, whatever derive is: *)
-Definition ed25519_priv_consistent (derive : bytes -> bytes) : Prop :=
-  forall data s p, ed25519_priv_parts data = Some (s, p) -> p = derive s.
-
-Lemma ed25519_priv_consistent_refuted_l : forall derive, ~ ed25519_priv_consistent derive.
+(* the key written by Raw() of a generated key (public half = derive seed) reads back *)
+Lemma ed25519_priv_roundtrip_l : forall derive seed,
+  length seed = 32%nat -> length (derive seed) = 32%nat ->
+  ed25519_priv_parts derive (ed25519_priv_raw seed (derive seed)) = Some (seed, derive seed).
 Proof.
-  intros derive H. set (z := repeat 0 32). set (o := repeat 1 32).
-  assert (Hz : ed25519_priv_parts (z ++ z) = Some (z, z)) by (vm_compute; reflexivity).
-  assert (Ho : ed25519_priv_parts (z ++ o) = Some (z, o)) by (vm_compute; reflexivity).
-  apply H in Hz. apply H in Ho. rewrite <- Hz in Ho. vm_compute in Ho. discriminate.
+  intros derive seed H1 H2. unfold ed25519_priv_parts.
+  rewrite ed25519_priv_parts_unchecked_raw by assumption. rewrite bytes_eqb_refl. reflexivity.
 Qed.
 
-(* what the code does guarantee (partial): the blob written by Raw() of a consistent key
-   reads back as that key *)
-Lemma ed25519_priv_consistent_partial_l : forall derive seed,
-  length seed = 32%nat -> length (derive seed) = 32%nat ->
-  ed25519_priv_parts (ed25519_priv_raw seed (derive seed)) = Some (seed, derive seed).
-Proof. intros derive seed H1 H2. apply ed25519_priv_parts_raw; assumption. Qed.
+(* REPAIRED (a5f52a7): every blob that unmarshals is consistent - its public half is the
+   public key of its seed, for every derive function *)
+Definition ed25519_priv_consistent (derive : bytes -> bytes) : Prop :=
+  forall data s p, ed25519_priv_parts derive data = Some (s, p) -> p = derive s.
 
+Lemma ed25519_priv_consistent_l : forall derive, ed25519_priv_consistent derive.
+Proof.
+  intros derive data s p H. unfold ed25519_priv_parts in H.
+  destruct (ed25519_priv_parts_unchecked data) as [[s' p']|]; [|discriminate].
+  destruct (bytes_eqb p' (derive s')) eqn:E; [|discriminate].
+  inversion H; subst. apply bytes_eqb_eq. exact E.
+Qed.
+
+(* hence, under an ideal signature scheme in which signing with seed s issues signatures for
+   the public key derive s, whatever unmarshals signs for its own GetPublic() (= its public
+   half): the monitor's clause 192 *)
+Section SignsForOwnKey.
+  Variable derive : bytes -> bytes.
+  Variable verify : bytes -> bytes -> bytes -> bool.
+  Variable origin : bytes -> option (bytes * bytes).
+  Variable sign : bytes -> bytes -> bytes.
+  Hypothesis verify_ideal : forall k m s, verify k m s = true <-> origin s = Some (k, m).
+  Hypothesis sign_origin : forall seed m, origin (sign seed m) = Some (derive seed, m).
+
+  Lemma ed25519_unmarshalled_signs_for_own_key_l : forall data seed pub m,
+    ed25519_priv_parts derive data = Some (seed, pub) -> verify pub m (sign seed m) = true.
+  Proof.
+    intros data seed pub m H. apply ed25519_priv_consistent_l in H. subst pub.
+    apply verify_ideal. apply sign_origin.
+  Qed.
+End SignsForOwnKey.
